@@ -586,7 +586,8 @@ func (p *Parser) parseSelectResults() []ast.SelectItem {
 			break
 		}
 		p.nextToken()
-		if p.Token.Kind == token.TokenEOF || p.Token.Kind == "FROM" {
+		// A trailing comma ends the list at the end of the statement as well as at the end of input.
+		if p.Token.Kind == token.TokenEOF || p.Token.Kind == ";" || p.Token.Kind == "FROM" {
 			break
 		}
 		results = append(results, p.parseSelectItem())
